@@ -97,6 +97,15 @@ func init() {
 			Make: func() vsched.Instance { return engDuplicate(vq) }})
 		Register(&Job{Name: "C10/engine/concurrent-spawn-3", Prop: "C10", Tier: "thorough", Bound: 2, BoundT: 3, Budget: 40, BudgetT: 900,
 			Desc: "3 concurrent spawners of one id", Make: func() vsched.Instance { return engDuplicate(vt) }})
+		var rr []respawnParams
+		for _, ch := range []int{1, 2} {
+			for _, st := range []int{1, 2} {
+				rr = append(rr, respawnParams{Children: ch, Stop: st, Probe: ch == 1})
+			}
+		}
+		Register(&Job{Name: "C10/engine/respawn-while-stopping", Prop: "C10", Bound: 2, BoundT: 3, Budget: 40, BudgetT: 600, Shards: 4,
+			Desc: "an actor with 1-2 children is poisoned/stopped while another thread spawns the same id again and a third polls GetPID (quiet engine): as long as a child of the old actor is alive the old actor has not stopped, so the id is still taken - no second Producer run, GetPID non-nil",
+			Make: func() vsched.Instance { return engRespawnRace(rr) }})
 		Register(&Job{Name: "C10/engine/respawn-histories", Prop: "C10", Bound: 0, BoundT: 1, Budget: 40, BudgetT: 900,
 			Desc: "all sequences of length<=4 (quick) over {spawn a, spawn b, stop+wait a, poison+wait a, send a, getpid a} against a map[id]incarnation model, quiescent steps",
 			Make: func() vsched.Instance { return engRespawn(4) }})
